@@ -25,12 +25,16 @@ def c13_jobs(tier):
         dict(family='blob', d=2, n=10, cls='Ellipsoid', npm=5, depth=4, seeds=(0, 1)),
         dict(family='blob', d=2, n=11, cls='UnitCubeEllipsoidMixture', npm=5, depth=4, seeds=(0, 1)),
         dict(family='two', d=2, n=21, cls='Ellipsoid', npm=10, depth=6, seeds=(0, 1)),
+        dict(family='tinyball110', d=3, n=120, cls='Ellipsoid', npm=10, depth=3, seeds=(0, 1)),
+        dict(family='tinyball45', d=8, n=60, cls='Ellipsoid', npm=9, depth=2, seeds=(0, 1)),
     ]
     if tier == 'thorough':
         jobs = [dict(j, depth=14, seeds=(0, 1, 2)) for j in jobs]
         for j in jobs:
             if j['family'] == 'blob' and j['n'] == 20:
                 j['depth'] = 7
+            if j['family'].startswith('tinyball'):
+                j['depth'] = 5
         jobs += [
             dict(family='three', d=3, n=45, cls='UnitCubeEllipsoidMixture', npm=5, depth=10,
                  seeds=(0, 1)),
@@ -40,6 +44,10 @@ def c13_jobs(tier):
             dict(family='face', d=2, n=30, cls='UnitCubeEllipsoidMixture', npm=3, depth=6,
                  seeds=(0, 1)),
             dict(family='two', d=2, n=40, cls='Ellipsoid', npm=3, depth=7, seeds=(0, 1), unit=False),
+            dict(family='tinyball70', d=5, n=300, cls='UnitCubeEllipsoidMixture', npm=20, depth=4,
+                 seeds=(0, 1)),
+            dict(family='tinyball110', d=3, n=200, cls='UnitCubeEllipsoidMixture', npm=10, depth=4,
+                 seeds=(0, 1)),
         ]
     for j in jobs:
         j.setdefault('unit', True)
